@@ -53,6 +53,9 @@ func retOf(b *ssa.BasicBlock) *ssa.Return {
 type Atom struct {
 	Op   token.Token // EQL NEQ LSS LEQ GTR GEQ
 	X, Y ssa.Value
+	// Neg: the operator was obtained by negating the comparison the code makes (the false edge of `x < y` is
+	// recorded as x >= y). For floats that is not an equivalence: every ordering comparison with NaN is false
+	Neg bool
 }
 
 func negOp(op token.Token) token.Token {
@@ -105,15 +108,15 @@ func condAtom(c ssa.Value, truth bool) (Atom, bool) {
 			if !truth {
 				op = negOp(op)
 			}
-			return Atom{op, b.X, b.Y}, true
+			return Atom{Op: op, X: b.X, Y: b.Y, Neg: !truth}, true
 		}
 	}
 	// plain boolean value
 	tv := ssa.NewConst(constant.MakeBool(true), types.Typ[types.Bool])
 	if truth {
-		return Atom{token.EQL, c, tv}, true
+		return Atom{Op: token.EQL, X: c, Y: tv}, true
 	}
-	return Atom{token.NEQ, c, tv}, true
+	return Atom{Op: token.NEQ, X: c, Y: tv}, true
 }
 
 // edgeAtom returns the atom that holds on edge b -> b.Succs[i] when b ends in an If.
